@@ -42,6 +42,8 @@ def quiescent_layer(ctx: Ctx):
         bi += 1
         if len(ctx.violations) > 15:
             break
+    if len(ctx.violations) > 15:
+        return          # the run already fails: skip the random runs (a broken tree makes them slow)
     n = ctx.pick(300, 3000)
     for i in range(n):
         conc = dd.CONCS_OFF[i % len(dd.CONCS_OFF)]
